@@ -345,6 +345,27 @@ Proof.
   destruct (K s1) as [_ K2]. rewrite K2. reflexivity.
 Qed.
 
+Lemma bytes_seek b c o lg off buf p :
+  d_bytes (pw_dev (fst (pw_physical_seek p (St b c o lg off buf)))) =
+  if 0 <? off then overwrite b c (seal buf) else b.
+Proof.
+  destruct (x_size b c o lg off buf) as (o1 & E).
+  unfold pw_physical_seek. unfold bind at 1. rewrite E.
+  match goal with |- context [if ?x then fail _ else _] => destruct x end; [reflexivity|]. cbv zeta.
+  match goal with |- context [if ?x then fail _ else _] => destruct x end; [reflexivity|].
+  set (s1 := St _ c o1 _ off _).
+  assert (K : keeps (relabel EWrite (pw_lift (d_seek_start (p / PAGE * PAGE))) ;;;
+                     relabel EWrite pw_read_current_page ;;;
+                     relabel EWrite (pw_lift (d_seek_start (p / PAGE * PAGE))) ;;;
+                     pw_set_off (p mod PAGE))).
+  { apply keeps_of_pinv. intros b0 lg0.
+    apply pinv_bind; [apply pinv_relabel, pinv_lift, dinv_seek_start, same_meta|intros _].
+    apply pinv_bind; [apply pinv_relabel, pinv_read_current_page, same_meta|intros _].
+    apply pinv_bind; [apply pinv_relabel, pinv_lift, dinv_seek_start, same_meta|intros _].
+    apply pinv_set_off. }
+  destruct (K s1) as [K1 _]. rewrite K1. reflexivity.
+Qed.
+
 (** one [write] call *)
 Lemma log_write b c o lg off buf data :
   off <= 1020 ->
